@@ -3294,6 +3294,32 @@ def r5_raw_nodes_survive(corpus: Corpus, rep: Report, tier: str):
                 if copies:
                     rep.violation("C17.R5", k, site, f"`{short(muts[0], 40)}` removes raw nodes from `{root.id}`, which is a deep copy only on some paths (`{short(copies[0], 40)}` does not dominate the loop): on the others the raw HTML nodes are deleted from the document itself, e.g. inline HTML in a heading disappears from the output")
                     continue
+            if not mentions and fn.cls is None and fn.parent_func is None and not fn.is_lambda:
+                # the loop sits in a helper without a guard of its own: judge the guard at every call site of the helper
+                fdot = f"{m.name}.{fn.qualname}"
+                sites_ = []
+                for g in corpus.all_functions():
+                    if g.is_lambda or g.fq == fn.fq:
+                        continue
+                    for c_ in g.local_nodes():
+                        if isinstance(c_, ast.Call) and dotted(c_.func) and g.module.resolve(dotted(c_.func)) == fdot:
+                            sites_.append((g, c_))
+                if sites_:
+                    bad_site = None
+                    for g, c_ in sites_:
+                        gcfg = get_cfg(g)
+                        gfacts = [(raw_enabled_read(t), pol) for t, pol in gcfg.guards(gcfg.stmt_of(c_))]
+                        imp = [r for r, pol in gfacts if r is not None and not pol]
+                        if not imp:
+                            bad_site = (g, c_, "is not under a test that implies raw_enabled is false")
+                        elif imp[0][1] is not None and not (isinstance(imp[0][1], ast.Constant) and imp[0][1].value is True):
+                            bad_site = (g, c_, f"reads raw_enabled with default `{short(imp[0][1], 20)}`")
+                    if bad_site is None:
+                        rep.ok("C17.R5", k, site, f"every call of {fn.name} ({len(sites_)}) is made only when the docutils setting raw_enabled is false")
+                    else:
+                        g, c_, why_ = bad_site
+                        rep.violation("C17.R5", k, g.module.site(c_), f"{fn.name} removes the raw nodes of the live tree and its call in {g.qualname} {why_}: HTML written in the document is removed from the output although raw content is allowed")
+                    continue
             rep.violation("C17.R5", k, site, f"`{short(muts[0], 40)}` removes or replaces the raw nodes of `{short(root, 30)}` in the live tree: HTML no longer reaches the output as a raw node")
     rep.expect_min("C17.R5", 2, "clean_astext (copy) and the raw_enabled filter(s): two today, one if the parsers share it")
 
@@ -3619,6 +3645,17 @@ def mutants(corpus: Corpus):
             s2 = splice(s2, body0, f"_drop_raw_node({inner.target.id})\n{ind}" + ast.get_source_segment(dsrc, body0))
             s2 = splice(s2, gd.test, "True") + f"\n\ndef _drop_raw_node(raw_node):\n    raw_node.parent.remove(raw_node)\n"
             add("c17-raw-removed-in-helper-unconditionally", "C17.R5", s2, "raw nodes of", rel_=pfd.module.rel, note="the removal lives in a helper that is handed the node")
+    # the whole filter loop in a helper, guard judged at the call site: call made unconditional
+    if gd is not None and len(gd.body) == 1 and isinstance(gd.body[0], ast.For):
+        dsrc = pfd.module.src
+        loop_ = gd.body[0]
+        lines_ = dsrc.splitlines(keepends=True)
+        body_txt = "".join(lines_[loop_.lineno - 1 : loop_.end_lineno])
+        import textwrap as _tw
+        helper = "\n\ndef _remove_raw_nodes_helper(document):\n" + _tw.indent(_tw.dedent(body_txt), "    ")
+        s3 = splice(dsrc, loop_, "_remove_raw_nodes_helper(document)")
+        s3 = splice(s3, gd.test, "True") + helper
+        add("c17-raw-filter-helper-called-unguarded", "C17.R5", s3, "raw nodes of", rel_=pfd.module.rel, note="the removal loop lives in a helper; its call site lost the raw_enabled guard")
     # ---- R6: extension switch restored ----
     fm = corpus.func("sphinx_ext.directives:FigureMarkdown.run")
     sv_ = find_stmt(fm, lambda s_: isinstance(s_, ast.Assign) and isinstance(s_.value, ast.Call) and (dotted(s_.value.func) or "") == "copy" and (dotted(s_.value.args[0]) or "").endswith(".enable_extensions"))
